@@ -201,6 +201,7 @@ func runC03(c *Ctx, r *Run) {
 	r.Rule("OB-G2", "every received commitment is opened: each hash.Commitment content field is stored and later is the commitment argument of a Decommit whose false result rejects")
 	r.Rule("OB-G3", "every content field whose type declares Validate() error is validated before use (explicitly, or by Decommit for commitments/decommitments)")
 	r.Rule("OB-T", "guard inventory over all round methods, internal/ot, internal/mta, pkg/ecdsa: every recorded reject guard (deciding callee + message/state/session data feeding it) is present and covers acceptance")
+	r.Rule("OB-P", "every loop over a participant list walks the whole list (no prefix / tail sub-slices)")
 	r.Rule("OB-R", "results are self-verified: the signature passed to ResultRound was the subject of a passed Verify on the session's key and message")
 	r.Rule("OB-H", "handler side: StoreMessage/StoreBroadcastMessage are reached only after the decode succeeded and (p2p) VerifyMessage returned nil")
 
@@ -557,6 +558,22 @@ func runC03(c *Ctx, r *Run) {
 
 	// ---- OB-H (cont.): one message per slot - a second, different copy must not overwrite per-sender round state
 	checkFirstCopyWins(c, r, "OB-H")
+	// ---- OB-P: per-party loops of the protocols are complete
+	{
+		var fns []*ssa.Function
+		for _, p := range c.LibPkgs() {
+			rel := c.Rel(p.Types)
+			if !(strings.HasPrefix(rel, "protocols/") || rel == "internal/round" || rel == "pkg/protocol" || rel == "pkg/math/polynomial" || rel == "pkg/party") {
+				continue
+			}
+			for _, fn := range funcsOfPkg(c, c.SSA[p.Types]) {
+				withAnon(fn, func(f *ssa.Function) { fns = append(fns, f) })
+			}
+		}
+		sort.Slice(fns, func(i, j int) bool { return c.FuncName(fns[i]) < c.FuncName(fns[j]) })
+		checkPartyLoops(c, r, "OB-P", fns)
+	}
+	r.Require("OB-P", 30)
 	r.Require("OB-G1", 25)
 	r.Require("OB-G2", 5)
 	r.Require("OB-G3", 8)
